@@ -724,6 +724,20 @@ def writer_emits(ctx, py, w):
         ctx.ob('writer-emits', meth, not silent,
                f'SerializingInterpreter.{meth} has a path (under {[show(c) for c, _b in silent[0]["conds"]] if silent else ""}) that updates the '
                f'tracked state but writes no instruction', py.where(w.top.module, got[0].node))
+    call_style(ctx, py)
+
+
+def call_style(ctx, py):
+    """what a generated method writes must not depend on HOW its caller passed the arguments: a method installed as
+    `def m(self, *args, **kwargs)` that forwards both to the tracker but takes its operand bytes from `args[..]` writes no operand for
+    an argument passed by keyword - the tracker is updated, the stream is one byte short and every later byte is read as something
+    else (PyRepo._destar_installed records such methods when it gives them their real parameter list)."""
+    for mname, cname, meth, node in getattr(py, 'call_style_operands', []):
+        if cname == 'SerializingInterpreter':
+            ctx.ob('writer-emits', f'{meth}/operands-whatever-the-call-style', False,
+                   f'{cname}.{meth} is generated as (*args, **kwargs): the call is forwarded with its keyword arguments but the operand '
+                   f'bytes are taken from the positional ones only - `{meth}(<name>=..)` is tracked and written without its operand',
+                   py.where(mname, node))
 
 
 # parameters that are generator-side labels, not machine state: one line of reason each
